@@ -286,6 +286,14 @@ def gen_history(rng, idx, tier):
     for _ in range(n_ops):
         kind = rng.choice(enabled_t) if (enabled_t and rng.random() < 0.25) else rng.choice(enabled)
         ops.append({"op": kind, "subject": rng.randrange(8), "r": rng.getrandbits(30)})
+    # a lazily compiled model is only interesting if something other than the model itself is the first of its family to be
+    # compiled: put a subclass definition first in most such histories (own stream)
+    for si, sub in enumerate(subjects):
+        if sub.get("lazy_compile"):
+            r3 = kernel.derive(rng.getrandbits(32), "lazy-first")
+            if r3.random() < 0.6:
+                ops.insert(0, {"op": "subclass_model", "subject": si, "r": r3.getrandbits(30)})
+            break
     hist = {"subjects": subjects, "ops": ops}
     # ambient configuration (own stream): the whole history may run inside a config_context of the caller; every operation
     # must leave *that* configuration in force
